@@ -126,3 +126,39 @@ Theorem C04_history_buffers :
               map k_seq K = map (seqn d) (seq 0 (List.length K)).
 Proof. exact history_packets_offb. Qed.
 Print Assumptions C04_history_buffers.
+
+(* ------------------------------------------------------------------ no error / in-bounds premise *)
+(* C04_history with its premises `w_err = false` and `inb_run` DERIVED (Tracer/NoError.v, see
+   Props/C02.v C02_no_error for the vocabulary) *)
+From BT.Tracer Require Import NoError.
+Theorem C04_history_full :
+  forall d user cs_size, wf_d d user cs_size ->
+  forall buf oracle h,
+    fits cs_size (8 * buf) -> or_ok cs_size oracle -> bufs_ok d user buf oracle ->
+    Forall (call_okf d) h ->
+    let w0 := mk_w (init_ctx buf) oracle 0%Z [] false user in
+    let w1 := step d w0 COpen in
+    c_open (w_c w1) = true ->
+    let w := run d buf user oracle (COpen :: h) in
+    exists K, Forall2 (pkt_ok d user) (pkts (obs (w_log w))) K /\
+              map k_disc K = snaps 0 (obs (w_log w)) /\
+              map k_seq K = map (seqn d) (seq 0 (List.length K)).
+Proof. exact history_packets_full. Qed.
+Print Assumptions C04_history_full.
+
+(* C05 on the decoded packets, same premises *)
+Theorem C04_history_stamps_full :
+  forall d user cs_size, wf_d d user cs_size ->
+  forall buf oracle h,
+    fits cs_size (8 * buf) -> or_ok cs_size oracle -> bufs_ok d user buf oracle ->
+    Forall (call_okf d) h ->
+    let w0 := mk_w (init_ctx buf) oracle 0%Z [] false user in
+    let w1 := step d w0 COpen in
+    c_open (w_c w1) = true ->
+    let w := run d buf user oracle (COpen :: h) in
+    c_open (w_c w) = false ->
+    exists K, Forall2 (pkt_ok d user) (pkts (obs (w_log w))) K /\
+              (has_tsb d = true -> map k_tsb K = stamps_of 0 (w_log w)) /\
+              (has_tse d = true -> map k_tse K = stamps_of 1 (w_log w)).
+Proof. exact history_stamps_full. Qed.
+Print Assumptions C04_history_stamps_full.
